@@ -356,6 +356,35 @@ func runC12(r *Run) {
 	r.Floor("R4", "ucdao msg handlers", nH, 4)
 
 	// ---------- R6 ----------
+	r.Rule("R8", "SHAPE.credit-is-read-add-write: in addCoinsToAccount the balance written by every setBalance is GetBalance(ctx, addr, coin.Denom).Add(coin) — the stored balance of that account and denomination plus the credited coin, on every path (no alternative value such as the bare coin on a 'first coin' path): a credit can only add to what the account holds")
+	if ac, ok := P.FnOK(ucdaoFn("addCoinsToAccount")); ok {
+		n := 0
+		eachCall(ac, func(ci CallInfo) {
+			if ci.Name != "setBalance" {
+				return
+			}
+			n++
+			v := stripValue(argN(ci.Instr, 2))
+			okShape := false
+			if c, isC := v.(*ssa.Call); isC && callInfo(c).Name == "Add" {
+				a := callArgs(c)
+				if len(a) == 2 {
+					recvFromRead := false
+					if rc, ok := stripValue(a[0]).(*ssa.Call); ok && callInfo(rc).Name == "GetBalance" && isParam(argN(rc, 1), "addr") {
+						recvFromRead = true
+					}
+					okShape = recvFromRead && backSlice(a[1]).HasParam("amt")
+				}
+			}
+			r.Check(okShape, "R8", fnID(ac)+"#credit-is-read-add-write", P.Pos(instrPos(ci.Instr)), "new balance = GetBalance(addr, denom).Add(coin)",
+				"addCoinsToAccount can write a balance that is not the account's stored balance plus the credited coin (an alternative value on some path): an existing smaller share is overwritten by the incoming coin — shares are destroyed while the total and the pool keep them")
+		})
+		if n == 0 {
+			r.Bad("R8", fnID(ac)+"#credit-is-read-add-write", P.Pos(fnPos(ac)), "addCoinsToAccount never calls setBalance")
+		}
+	} else {
+		r.Bad("R8", "anchor/addCoinsToAccount", "", "not found")
+	}
 	r.Rule("R7", "FLOW.genesis-total-is-the-sum: the totals that InitGenesis records (setTotalBalanceOfCoin) derive from the balances it has just imported (GenesisState.Balances summed up), not from the document's optional TotalBalance field alone — an import without total_balance otherwise leaves the recorded total empty while shares exist")
 	if ig, ok := P.FnOK(ucdaoFn("InitGenesis")); ok {
 		n := 0
